@@ -122,6 +122,7 @@ class FakeTask:
         return experiment.utilities.data.Matrix()
 
     def finish(self, reason):
+        self.d.world.now += 100000.0 * self.n
         self.alive = False
         self.reason = reason
         self.returncode = RC[reason]
@@ -156,7 +157,32 @@ def make_job(scratch, max_restarts=None):
     if max_restarts is not None:
         comp["workflowAttributes"] = {"maxRestarts": max_restarts}
     exp = realenv.experiment_from_flowir({"components": [comp]}, scratch)
-    return exp, exp._stages[0].jobWithName("c")
+    job = exp._stages[0].jobWithName("c")
+    _cache_configuration(job)
+    return exp, job
+
+
+_config_cache = {}
+
+
+def _cache_configuration(job):
+    """ComponentSpecification.configuration deep-copies the resolved FlowIR of the component on every access (job.type,
+    job.workflowAttributes, ... : ~20 accesses per engine life).  The configuration never changes in a G01 run: the first
+    copy is served again (read-only use).  As harness/world_c12.py does."""
+    import experiment.model.graph as graph
+    cls = graph.ComponentSpecification
+    if getattr(cls, "_g01_cached", False):
+        return
+    real = cls.configuration.fget
+
+    def getter(self):
+        hit = _config_cache.get(id(self))
+        if hit is None or hit[0] is not self:
+            hit = (self, real(self))
+            _config_cache[id(self)] = hit
+        return hit[1]
+    cls.configuration = property(getter)
+    cls._g01_cached = True
 
 
 class Driver:
@@ -177,6 +203,7 @@ class Driver:
         self.snap_items = []       # first-hop items of emit_now snapshots, in creation order
         self.held = []             # items the replay holds back (the launch hop during KillLate)
         self.last_restart = "-"
+        self.launch_kind = "-"
         self.engine_factory = engine_factory or (lambda job, gen: eng.Engine(job, gen))
         self._inst = None
         # script state (replay) / random state
@@ -213,6 +240,12 @@ class Driver:
 
     def _taskgen(self, job):
         self.nlaunch += 1
+        if self.mode == "random":
+            self.next_kind = self.rnd.choice(self.kinds)     # the outcome of this launch is decided (and logged) here
+            self.launch_kind = self.next_kind
+        # the specification treats the frozen durations of different tasks (outputWaitTime, lastTaskRunTime) as different
+        # values: virtual time makes them so (the k-th launch happens k*1000 s late, the k-th task runs k*100000 s)
+        self.world.now += 1000.0 * self.nlaunch
         k = self.next_kind
         if k == "oserror":
             raise OSError("g01: task generator raises OSError")
@@ -276,6 +309,10 @@ class Driver:
                  nlaunch=self.nlaunch, tkill=bool(proc is not None and proc.kill_requested and proc.alive),
                  talive=bool(proc is not None and proc.alive), restarts=e.restarts, done=self.completed,
                  rcode=self.last_restart, ups=self.updates)
+        if self.mode == "random":
+            o.update(nsnap=len([i for i in self.snap_items if not i.dead]), waiting=bool(proc is not None and proc.waiting),
+                     lk=self.launch_kind)
+            self.launch_kind = "-"
         self.updates = []
         return o
 
@@ -345,7 +382,8 @@ class Driver:
             a = self.hist[self.pos]
             self.pos += 1
             self.need_obs = True
-            self.last_restart = "-"
+            if a != "Tick" and not a.startswith("Fire:"):
+                self.last_restart = "-"      # what the last environment CALL returned (time passing is not a call)
             e = self.engine
             if a == "Run":
                 e.run()
@@ -398,7 +436,7 @@ class Driver:
             self.run_item(min(hops, key=lambda i: i.seq))
 
     # ================================================================ direction (b): random interleavings, logged
-    def random_run(self, rnd, reasons, kinds, max_steps=400, p_env=0.25, allow_run_dead=True):
+    def random_run(self, rnd, reasons, kinds, max_steps=400, p_env=0.25, allow_run_dead=False):
         """Seeded random interleaving at single-item granularity.  Returns the logged steps."""
         self.mode = "random"
         self.rnd = rnd
@@ -414,10 +452,10 @@ class Driver:
         self.tick_budget = rnd.choice([0, 1, 2, 3])
         self.restart_budget = rnd.choice([0, 1, 2, 4])
         self.updates = []
-        try:
-            self._random_loop(None)
-        except EndOfScript:
-            pass
+        self.closing = False
+        self.killed_alive = False
+        self.shutdown_called = False
+        self._random_loop(None)
         return self.trace
 
     def _log(self, ev, arg="-"):
@@ -432,7 +470,13 @@ class Driver:
     def _env_choices(self):
         e = self.engine
         out = []
-        t = self.task()
+        if self.closing:
+            # closing phase: every task ends, a dead engine is shut down (if this run wants to), nothing else
+            if e.process is not None and e.process.alive:
+                out.append(("Exit", "Killed" if e.process.kill_requested else "Success"))
+            elif not e.isAlive() and not e.isShutdown and self.want_shutdown:
+                out.append(("Shutdown", "-"))
+            return out
         if not self.run_called and not e.isShutdown and (e.isAlive() or self.allow_run_dead):
             out.append(("Run", "-"))
         if self.nkill < self.kill_budget:
@@ -449,15 +493,29 @@ class Driver:
 
     def _random_loop(self, until):
         """until: the task whose wait() this loop runs in (None at top level)."""
-        while self.budget > 0:
+        while True:
             self.budget -= 1
+            if self.budget <= 0 and not self.closing:
+                self.closing = True          # drive the run to quiescence (fair schedule): liveness on the code
+            if self.budget < -3000:
+                raise HarnessDrift("the closing phase does not terminate")
             items = self.live_items()
             due = [i for i in items if i.due <= self.world.now and self.classify(i) in ("hop", "snap", "task")]
             timers = [i for i in items if self.classify(i) in ("timer", "delay", "tick", "future")]
-            if self.ntick >= self.tick_budget:
+            if self.ntick >= self.tick_budget or self.closing:
                 timers = [i for i in timers if self.classify(i) != "tick"]
             envs = self._env_choices()
+            if self.closing:
+                # hops first (FIFO), then time, then the environment
+                if due:
+                    due = [min(due, key=lambda i: i.seq)]
+                    timers, envs = [], []
+                elif timers:
+                    timers = [min(timers, key=lambda i: i.seq)]
+                    envs = []
             if not due and not timers and not envs:
+                if until is not None and until.alive:
+                    raise HarnessDrift("nothing can happen while a task is waited for")
                 return
             pick_env = envs and (not due and not timers or self.rnd.random() < self.p_env)
             if pick_env:
@@ -469,6 +527,8 @@ class Driver:
                     e.run()
                 elif ev == "Kill":
                     self.nkill += 1
+                    if e.isAlive():
+                        self.killed_alive = True
                     e.kill()
                 elif ev == "Exit":
                     t = e.process
@@ -482,6 +542,7 @@ class Driver:
                     self.nrestart += 1
                     self.last_restart = e.restart()
                 elif ev == "Shutdown":
+                    self.shutdown_called = True
                     e.shutdown()
                 self._log(ev, arg)
                 continue
@@ -490,25 +551,56 @@ class Driver:
             else:
                 it = self.rnd.choice(timers)
             cls = self.classify(it)
-            ev, arg = "Item", "-"
+            arg = "-"
             if cls == "delay":
-                self.next_kind = self.rnd.choice(self.kinds)
-                ev, arg = "Fire", self.next_kind
+                ev = "Fire"
             elif cls == "tick":
                 self.ntick += 1
                 ev = "Tick"
+            elif cls == "snap":
+                live = sorted((i for i in self.snap_items if not i.dead), key=lambda i: i.seq)
+                ev, arg = "Snap", str(live.index(it) + 1)
+            elif cls == "task":
+                ev = "HopTask"
+            elif it.lane == "pool:EngineTrigger":
+                ev = "HopTrigger"
+            elif it.lane == "pool:Engine":
+                ev = "HopEngine"
+            elif it.lane.startswith("tp"):
+                ev = "HopFilter"
+            else:
+                ev = "HopOther"
             self.exit_arg = None
-            self.carrier_logged = False
             self.run_item(it)
             if cls == "task" and self.exit_arg is not None:
                 ev, arg = "Exit", self.exit_arg     # the carrier returned: task exit + HandleTaskExit in one step
                 self.exit_arg = None
             self._log(ev, arg)
-        if until is not None and until.alive:
-            raise EndOfScript()
 
     def _random_wait(self, task):
-        self._log("Item")            # the task-lane item entered wait(): a step of its own (no observable change)
+        self._log("HopTask")         # the task-lane item entered wait(): a step of its own
         self._random_loop(task)
         if task.alive:
-            raise EndOfScript()
+            raise HarnessDrift("wait() returns while the task is alive")
+
+    def finish_run(self):
+        """After random_run (which ends with a fair closing phase): one clock tick, settle, then the liveness obligations
+        on the real engine.  -> None or (key, what)"""
+        e = self.engine
+        self.order = "fifo"
+        self.need_obs = False
+        t = self._find("tick")
+        if t is not None:
+            self.run_item(t)
+        self.mode = "replay"
+        self._settle()
+        self.mode = "random"
+        if e.isAlive() and (self.run_called or self.killed_alive):
+            return ("prop:engine-alive-at-quiescence", "run() called: %s, kill() on a live engine: %s, yet isAlive() at quiescence" % (self.run_called, self.killed_alive))
+        if self.shutdown_called and not self.completed:
+            return ("prop:stream-not-completed-after-shutdown", "shutdown() was called, the update stream did not complete")
+        if not e.isAlive():
+            seen = [u["isAlive"] for u in self.all_updates if "isAlive" in u]
+            if not seen or seen[-1] != "F":
+                return ("prop:consumer-believes-alive-at-quiescence", "engine dead (%s), isAlive values seen in updates: %s" % (e.exitReason(), seen[-6:]))
+        return None
